@@ -14,19 +14,26 @@
    a new state and retries, finally falling back to [fallback_prog].  The number of retries
    is reported by the tool (`tries`), so a generator that stopped producing is visible.   *)
 Require Import List ZArith String Bool Arith Ascii.
-Require Import AV.Mini.Syntax AV.Mini.Types AV.Mini.Eval.
+Require Import AV.Mini.Syntax AV.Mini.Types AV.Mini.Eval AV.Mini.Print.
 Import ListNotations.
 Local Open Scope Z_scope.
 
 (* ---------------- PRNG ---------------- *)
 Definition rng := Z.
 Definition golden : Z := 11400714819323198485.   (* 0x9e3779b97f4a7c15 *)
-Definition m64 (z : Z) : Z := z mod two64.
+Definition mask64 : Z := 18446744073709551615.
+Definition m64 (z : Z) : Z := Z.land z mask64.
+(* shift-add-xor finaliser (Jenkins / Wang style 64-bit integer hash): multiplications by
+   (1 + 2^k) only, because Z.mul on binary positives is slow after extraction              *)
 Definition mix (z : Z) : Z :=
-  let z0 := m64 z in
-  let z1 := m64 (Z.lxor z0 (Z.shiftr z0 30) * 13787848793156543929) in
-  let z2 := m64 (Z.lxor z1 (Z.shiftr z1 27) * 10723151780598845931) in
-  Z.lxor z2 (Z.shiftr z2 31).
+  let a0 := m64 z in
+  let a1 := m64 (Z.lxor mask64 a0 + Z.shiftl a0 21) in
+  let a2 := Z.lxor a1 (Z.shiftr a1 24) in
+  let a3 := m64 (a2 + Z.shiftl a2 3 + Z.shiftl a2 8) in
+  let a4 := Z.lxor a3 (Z.shiftr a3 14) in
+  let a5 := m64 (a4 + Z.shiftl a4 2 + Z.shiftl a4 4) in
+  let a6 := Z.lxor a5 (Z.shiftr a5 28) in
+  m64 (a6 + Z.shiftl a6 31).
 Definition rn (r : rng) (i n : Z) : Z := if n <=? 0 then 0 else mix (r + (2 * i + 1) * golden) mod n.
 Definition ch (r : rng) (i : Z) : rng := mix (mix (r + (2 * i + 2) * golden) + 1).
 Definition rb (r : rng) (i : Z) (num den : Z) : bool := rn r i den <? num.   (* true with prob num/den *)
@@ -38,50 +45,94 @@ Definition pick {A : Type} (r : rng) (i : Z) (l : list A) (d : A) : A :=
 (* ---------------- features ---------------- *)
 Record feats : Type := mkFeats {
   fInt : bool; fStr : bool; fFun : bool; fRec : bool; fOvl : bool;
-  fWhile : bool; fFor : bool; fExit : bool; fSeq : bool
+  fWhile : bool; fFor : bool; fExit : bool; fSeq : bool;
+  fErr : bool;   (* `error` / `never` endings *)
+  fExn : bool;   (* throw / try / catch *)
+  fList : bool;  (* List(T): literals, cons / first / rest / # / empty? / reverse / = / l.i, for x in l *)
+  fMac : bool;   (* macros: type names through MI / BI, DBL(x) / SQR(x) calls *)
+  fQual : bool   (* literals rendered `5@MachineInteger` (true) or through the typed helper `mi(5)` (false) *)
 }.
 
 Definition draw_feats (r : rng) : feats :=
   mkFeats (rb r 1 3 4) (rb r 2 2 3) (rb r 3 4 5) (rb r 4 1 2) (rb r 5 1 2)
-          (rb r 6 2 3) (rb r 7 3 4) (rb r 8 2 3) (rb r 9 1 2).
+          (rb r 6 2 3) (rb r 7 3 4) (rb r 8 2 3) (rb r 9 1 2) (rb r 11 1 4) (rb r 12 1 2) (rb r 15 1 2) (rb r 14 1 2) (rb r 10 1 2).
 
 (* ---------------- generation environment ---------------- *)
 Record fsig : Type := mkSig {
   gs_name : nat; gs_params : list ty; gs_ret : ty; gs_pure : bool;
-  gs_rec : bool          (* first parameter is a down-counter *)
+  gs_rec : bool;         (* first parameter is a down-counter *)
+  gs_thr : bool          (* may let a user exception escape *)
 }.
 
 Inductive mode : Type := MAny | MPure | MStable.
 
+(* how the generator may use a variable: a constant (never assigned: `stable`), an ordinary
+   variable (may be assigned), or a reserved loop counter (assigned only by the `while`
+   pattern that owns it, read-only otherwise, but not stable)                             *)
+Inductive vkind : Type := KConst | KVar | KCnt.
+Definition k_assignable (k : vkind) : bool := match k with KVar => true | _ => false end.
+Definition k_stable (k : vkind) : bool := match k with KConst => true | _ => false end.
+
 Record genv : Type := mkGenv {
   gFe : feats;
-  gG : list (ty * bool);     (* visible globals; bool = the generator may assign it *)
+  gG : list (ty * vkind);    (* visible globals *)
   gF : list fsig;            (* callable functions *)
-  gL : list (ty * bool);     (* frame; bool = the generator may assign it *)
+  gL : list (ty * vkind);    (* frame *)
   gCnt : list nat;           (* reserved loop counters: frame slots (in a function) or globals (top level) *)
   gTop : bool;               (* at top level (counters are globals) *)
   gRet : option ty;
   gLoop : bool;
   gPureF : bool;             (* inside a function claimed pure *)
-  gSelf : option fsig        (* the recursive function being defined *)
+  gSelf : option fsig;       (* the recursive function being defined *)
+  gNoIf : bool;              (* inside a top-level loop, qualified style: no `if` (see no_top_loop) *)
+  gNoLoop : bool;            (* below a top-level `if`, qualified style: no loop *)
+  gInTry : bool;             (* inside a `try` whose handlers catch every user exception *)
+  gThr : bool;               (* inside a function that may let exceptions escape *)
+  gNoTry : bool              (* below a top-level `if` (either literal style): no `try` *)
 }.
 
-Definition set_L (E : genv) (l : list (ty * bool)) : genv :=
-  mkGenv (gFe E) (gG E) (gF E) l (gCnt E) (gTop E) (gRet E) (gLoop E) (gPureF E) (gSelf E).
+Definition set_L (E : genv) (l : list (ty * vkind)) : genv :=
+  mkGenv (gFe E) (gG E) (gF E) l (gCnt E) (gTop E) (gRet E) (gLoop E) (gPureF E) (gSelf E) (gNoIf E) (gNoLoop E) (gInTry E) (gThr E) (gNoTry E).
 Definition set_loop (E : genv) (b : bool) : genv :=
-  mkGenv (gFe E) (gG E) (gF E) (gL E) (gCnt E) (gTop E) (gRet E) b (gPureF E) (gSelf E).
+  mkGenv (gFe E) (gG E) (gF E) (gL E) (gCnt E) (gTop E) (gRet E) b (gPureF E) (gSelf E) (gNoIf E) (gNoLoop E) (gInTry E) (gThr E) (gNoTry E).
 Definition set_cnt (E : genv) (c : list nat) : genv :=
-  mkGenv (gFe E) (gG E) (gF E) (gL E) c (gTop E) (gRet E) (gLoop E) (gPureF E) (gSelf E).
+  mkGenv (gFe E) (gG E) (gF E) (gL E) c (gTop E) (gRet E) (gLoop E) (gPureF E) (gSelf E) (gNoIf E) (gNoLoop E) (gInTry E) (gThr E) (gNoTry E).
 
-(* At the top level of a file no `while` is generated below an `if` or inside a value
-   sequence: the pinned compiler rejects a qualified literal inside a `repeat` inside a
-   top-level `if` whose condition holds a qualified literal ("No meaning for
-   integer-style literal"; reported as a finding, tools/MINI_TOOL.md).  Inside functions
-   the shape is generated.                                                              *)
-Definition no_top_while (E : genv) : genv := if gTop E then set_cnt E [] else E.
+(* With the qualified literal style (fQual) nothing at the top level of a file nests an `if`
+   (statement or expression) and a loop in either order: the pinned compiler rejects a
+   qualified literal (`2@MachineInteger`) inside a `repeat` inside a top-level `if` whose
+   condition holds a qualified literal, and inside an `if` inside a top-level loop ("No
+   meaning for integer-style literal"; reported as a finding, tools/MINI_TOOL.md).  Inside
+   functions, and everywhere with the helper style, all shapes are generated.
+   In both styles no `try` stands below a top-level `if`: the pinned compiler answers "Cannot
+   determine the meaning of this expression because the type of one of its subexpressions
+   cannot yet be completely analyzed" for the condition (same family of defect).          *)
+(* no `return` inside a sequence used as an operand: the pinned compiler rejects
+   `if ({ if b then { return x }; true }) then ..` inside a function with "The `return' is
+   not inside a function" (reported as a finding)                                          *)
+Definition no_ret (E : genv) : genv :=
+  mkGenv (gFe E) (gG E) (gF E) (gL E) (gCnt E) (gTop E) None (gLoop E) (gPureF E) (gSelf E) (gNoIf E) (gNoLoop E) (gInTry E) (gThr E) (gNoTry E).
+Definition set_try (E : genv) (b : bool) : genv :=
+  mkGenv (gFe E) (gG E) (gF E) (gL E) (gCnt E) (gTop E) (gRet E) (gLoop E) (gPureF E) (gSelf E) (gNoIf E)
+         (gNoLoop E) b (gThr E) (gNoTry E).
+(* may a call to g be placed here: throwing functions only where the exception is caught
+   (or passed on by a function that is itself marked throwing)                             *)
+Definition thr_ok (E : genv) (g : fsig) : bool := (negb (gs_thr g) || gInTry E || gThr E)%bool.
+Definition topq (E : genv) : bool := (gTop E && fQual (gFe E))%bool.
+Definition no_top_loop (E : genv) : genv :=
+  if gTop E
+  then mkGenv (gFe E) (gG E) (gF E) (gL E) (gCnt E) (gTop E) (gRet E) (gLoop E) (gPureF E) (gSelf E) (gNoIf E)
+              (fQual (gFe E) || gNoLoop E) (gInTry E) (gThr E) true
+  else E.
+Definition set_noif (E : genv) : genv :=
+  mkGenv (gFe E) (gG E) (gF E) (gL E) (gCnt E) (gTop E) (gRet E) (gLoop E) (gPureF E) (gSelf E) (topq E) (gNoLoop E) (gInTry E) (gThr E) (gNoTry E).
+
+Definition elem_types (fe : feats) : list bty :=
+  [BMI; BBool] ++ (if fInt fe then [BInt] else []) ++ (if fStr fe then [BStr] else []).
 
 Definition val_types (fe : feats) : list ty :=
-  [TMI; TBool; TMI] ++ (if fInt fe then [TInt; TInt] else []) ++ (if fStr fe then [TStr] else []).
+  [TMI; TBool; TMI] ++ (if fInt fe then [TInt; TInt] else []) ++ (if fStr fe then [TStr] else [])
+  ++ (if fList fe then map TList (elem_types fe) else []).
 
 Definition gen_ty (fe : feats) (r : rng) (i : Z) : ty := pick r i (val_types fe) TMI.
 
@@ -124,12 +175,21 @@ Fixpoint gen_str (n : nat) (r : rng) : string :=
   | S k => (pick r 0 str_atoms "a"%string ++ gen_str k (ch r 1))%string
   end.
 
+Definition gen_blit (b : bty) (r : rng) : expr :=
+  match b with
+  | BMI => ELit (LNum NMI (gen_num NMI r))
+  | BInt => ELit (LNum NInt (gen_num NInt r))
+  | BBool => ELit (LBool (rb r 0 1 2))
+  | BStr => ELit (LStr (gen_str (Z.to_nat (rn r 6 4)) (ch r 7)))
+  end.
+
 Definition gen_lit (t : ty) (r : rng) : expr :=
   match t with
-  | TMI => ELit (LNum NMI (gen_num NMI r))
-  | TInt => ELit (LNum NInt (gen_num NInt r))
-  | TBool => ELit (LBool (rb r 0 1 2))
-  | TStr => ELit (LStr (gen_str (Z.to_nat (rn r 6 4)) (ch r 7)))
+  | TMI => gen_blit BMI r
+  | TInt => gen_blit BInt r
+  | TBool => gen_blit BBool r
+  | TStr => gen_blit BStr r
+  | TList b => EListLit b (map (fun i => gen_blit b (ch r (Z.of_nat i + 20))) (seq 0 (Z.to_nat (rn r 8 4))))
   end.
 
 Definition small_lit (n : nty) (lo span : Z) (r : rng) : expr :=
@@ -139,8 +199,8 @@ Definition small_lit (n : nty) (lo span : Z) (r : rng) : expr :=
 
 (* ---------------- leaves ---------------- *)
 Definition leaf (E : genv) (m : mode) (t : ty) (r : rng) : expr :=
-  let okg (d : ty * bool) :=
-      (ty_eqb (fst d) t && match m with MStable => negb (snd d) | _ => true end)%bool in
+  let okg (d : ty * vkind) :=
+      (ty_eqb (fst d) t && match m with MStable => k_stable (snd d) | _ => true end)%bool in
   let gs := idx_where okg 0 (gG E) in
   let ls := idx_where okg 0 (gL E) in
   let cands := map EGlob gs ++ map ELoc ls ++ map ELoc ls in
@@ -151,7 +211,7 @@ Definition leaf (E : genv) (m : mode) (t : ty) (r : rng) : expr :=
 
 (* callable functions with result t in mode m *)
 Definition callable (E : genv) (m : mode) (t : ty) : list fsig :=
-  filter (fun g => (ty_eqb (gs_ret g) t
+  filter (fun g => (ty_eqb (gs_ret g) t && thr_ok E g
                     && match m with
                        | MAny => negb (gPureF E) || gs_pure g
                        | MPure => gs_pure g
@@ -161,6 +221,9 @@ Definition callable (E : genv) (m : mode) (t : ty) : list fsig :=
 Definition sub_mode (m : mode) : mode := match m with MAny => MPure | x => x end.
 
 Definition nty_of (t : ty) : nty := match t with TInt => NInt | _ => NMI end.
+Definition bty_of (t : ty) : bty :=
+  match t with TInt => BInt | TBool => BBool | TStr => BStr | _ => BMI end.
+Definition pick_elem (E : genv) (r : rng) (i : Z) : bty := pick r i (elem_types (gFe E)) BMI.
 
 Definition gen_nty (E : genv) (r : rng) (i : Z) : nty :=
   if (fInt (gFe E) && rb r i 1 2)%bool then NInt else NMI.
@@ -183,6 +246,23 @@ Fixpoint gen_expr (sz : nat) (E : genv) (m : mode) (t : ty) (r : rng) {struct sz
     let args2 (t1 t2 : ty) := [gen_expr k E (am 2%nat 0%nat) t1 (ch r 1); gen_expr k E (am 2%nat 1%nat) t2 (ch r 2)] in
     let c := rn r 0 12 in
     if c <? 3 then leaf E m t r
+    else if (c <? 8) && fList (gFe E) && rb r 30 1 5 then
+      (* list observers; first / l.i guarded by empty? (the list expression is pure and is
+         written twice)                                                                  *)
+      let b := match t with TMI | TBool => pick_elem E r 31 | _ => bty_of t end in
+      let l := gen_expr k E (sub_mode m) (TList b) (ch r 1) in
+      match t with
+      | TBool => if rb r 32 1 2 then EPrim (PLEmptyQ b) [l]
+                 else EPrim (if rb r 33 1 2 then PLEq b else PLNe b) [l; gen_expr k E (sub_mode m) (TList b) (ch r 2)]
+      | TList _ => leaf E m t r
+      | _ =>
+          if (match t with TMI => rb r 32 1 2 | _ => false end) then EPrim (PLLen b) [l]
+          else if negb (existsb (bty_eqb b) (elem_types (gFe E))) then leaf E m t r
+          else if rb r 33 1 2 then EIf (EPrim (PLEmptyQ b) [l]) (gen_lit t (ch r 3)) (EPrim (PLFirst b) [l])
+          else EIf (EPrim (PLEmptyQ b) [l]) (gen_lit t (ch r 3))
+                   (EPrim (PLNth b) [l; EPrim (PAdd NMI) [EPrim (PMod NMI) [gen_expr k E (sub_mode m) TMI (ch r 4); EPrim (PLLen b) [l]];
+                                                          ELit (LNum NMI 1)]])
+      end
     else if c <? 8 then
       (* library operation *)
       match t with
@@ -196,6 +276,11 @@ Fixpoint gen_expr (sz : nat) (E : genv) (m : mode) (t : ty) (r : rng) {struct sz
             match n with
             | NMI => EPrim (PMul n) (args2 tn tn)
             | NInt => EPrim (PMul n) [gen_expr k E (sub_mode m) tn (ch r 1); gen_lit tn (ch r 2)]
+            end
+          else if (o <? 7) && fMac (gFe E) then
+            match n with
+            | NMI => EMac (if rb r 4 1 2 then MDbl n else MSqr n) (gen_expr k E (sub_mode m) tn (ch r 1))
+            | NInt => EMac (MDbl n) (gen_expr k E (sub_mode m) tn (ch r 1))
             end
           else if o <? 7 then EPrim (PNeg n) [gen_expr k E m tn (ch r 1)]
           else if o <? 9 then
@@ -231,9 +316,22 @@ Fixpoint gen_expr (sz : nat) (E : genv) (m : mode) (t : ty) (r : rng) {struct sz
           else if o <? 10 then
             if fStr (gFe E) then EPrim (if rb r 5 1 2 then PSEq else PSNe) (args2 TStr TStr)
             else EPrim PNot [gen_expr k E m TBool (ch r 1)]
+          else if gTop E then
+            (* no short-circuit and/or at the top level of a file: the pinned compiler leaves an
+               imported operation uninitialised when its first use is in the skipped operand
+               (segmentation fault at the next use; reported as a finding)                    *)
+            EPrim (if o <? 11 then PBAnd else PBOr) (args2 TBool TBool)
           else if o <? 11 then EAnd (gen_expr k E m TBool (ch r 1)) (gen_expr k E m TBool (ch r 2))
           else EOr (gen_expr k E m TBool (ch r 1)) (gen_expr k E m TBool (ch r 2))
       | TStr => EPrim PCat [gen_expr k E (sub_mode m) TStr (ch r 1); gen_lit TStr (ch r 2)]
+      | TList b =>
+          let o := rn r 3 6 in
+          let l := gen_expr k E (sub_mode m) (TList b) (ch r 1) in
+          if o <? 2 then EPrim (PLCons b) [gen_expr k E (sub_mode m) (ty_of_bty b) (ch r 2); l]
+          else if o <? 3 then EIf (EPrim (PLEmptyQ b) [l]) l (EPrim (PLRest b) [l])    (* guarded rest *)
+          else if o <? 4 then EPrim (PLRev b) [l]
+          else EListLit b (map (fun i => gen_expr k E (sub_mode m) (ty_of_bty b) (ch r (Z.of_nat i + 5)))
+                               (seq 0 (Z.to_nat (rn r 4 4))))
       end
     else if c <? 10 then
       (* function call *)
@@ -260,12 +358,13 @@ Fixpoint gen_expr (sz : nat) (E : genv) (m : mode) (t : ty) (r : rng) {struct sz
                  (combine (seq 0 n) (gs_params g)))
       end
     else if c <? 11 then
-      EIf (gen_expr k E m TBool (ch r 1)) (gen_expr k E m t (ch r 2)) (gen_expr k E m t (ch r 3))
+      if gNoIf E then leaf E m t r
+      else EIf (gen_expr k E m TBool (ch r 1)) (gen_expr k E m t (ch r 2)) (gen_expr k E m t (ch r 3))
     else
       match m with
       | MAny =>
           if fSeq (gFe E)
-          then ESeq (gen_block k (no_top_while E) (Some t) (Z.to_nat (rn r 3 3)) (ch r 4))
+          then ESeq (gen_block k (no_ret (no_top_loop E)) (Some t) (Z.to_nat (rn r 3 3)) (ch r 4))
                     (gen_expr k E MAny t (ch r 5))
           else leaf E m t r
       | _ => leaf E m t r
@@ -285,8 +384,8 @@ with gen_block (sz : nat) (E : genv) (vs : option ty) (n : nat) (r : rng) {struc
   end
 
 with gen_stmts (sz : nat) (E : genv) (vs : option ty) (r : rng) {struct sz} : list stmt :=
-  let asg_g := idx_where (fun d : ty * bool => snd d) 0 (gG E) in
-  let asg_l := idx_where (fun d : ty * bool => snd d) 0 (gL E) in
+  let asg_g := idx_where (fun d : ty * vkind => k_assignable (snd d)) 0 (gG E) in
+  let asg_l := idx_where (fun d : ty * vkind => k_assignable (snd d)) 0 (gL E) in
   let print1 (k : nat) :=
       let t1 := gen_ty (gFe E) r 30 in
       let t2 := gen_ty (gFe E) r 31 in
@@ -312,29 +411,50 @@ with gen_stmts (sz : nat) (E : genv) (vs : option ty) (r : rng) {struct sz} : li
             | None => []
             end
       end in
+  let simple (k : nat) := if gPureF E then assign k else print1 k in
   match sz with
   | O => []
   | S k =>
-    let c := rn r 0 16 in
-    if c <? 4 then (if gPureF E then assign k else print1 k)
+    let c := rn r 0 20 in
+    if (16 <=? c) && negb (gPureF E) && (fExn (gFe E) || fErr (gFe E)) then
+      if (c <? 18) && fExn (gFe E) && negb (gNoTry E) then
+        (* try / catch: handlers for every user exception, rotated *)
+        let rot := Z.to_nat (rn r 1 3) in
+        let full := orb (rb r 2 3 4) (negb (gInTry E || gThr E)) in
+        let ks := if full then [rot; (rot + 1) mod 3; (rot + 2) mod 3]%nat else [rot] in
+        [STry (gen_block k (no_top_loop (set_try E (full || gInTry E))) None (S (Z.to_nat (rn r 3 3))) (ch r 4))
+              (map (fun j => (j, gen_block k (no_top_loop E) None (Z.to_nat (rn r (5 + Z.of_nat j) 2)) (ch r (8 + Z.of_nat j)))) ks)]
+      else if (c <? 19) && fExn (gFe E) && (gInTry E || gThr E) then
+        if gNoIf E then [] else [SIf (gen_expr k E MAny TBool (ch r 1)) [SThrow (Z.to_nat (rn r 2 3))] []]
+      else if fErr (gFe E) && rb r 1 1 3 then
+        if gNoIf E then []
+        else [SIf (gen_expr k E MAny TBool (ch r 2))
+                  [if rb r 3 1 4 then SNever else SError (ELit (LStr (gen_str 2 (ch r 4))))] []]
+      else simple k
+    else if c <? 4 then simple k
     else if c <? 7 then assign k
+    else if (c <? 9) && gNoIf E then assign k
     else if c <? 9 then
       [SIf (gen_expr k E MAny TBool (ch r 1))
-           (gen_block k (no_top_while E) None (S (Z.to_nat (rn r 2 2))) (ch r 3))
-           (if rb r 4 1 2 then [] else gen_block k (no_top_while E) None (S (Z.to_nat (rn r 5 2))) (ch r 6))]
+           (gen_block k (no_top_loop E) None (S (Z.to_nat (rn r 2 2))) (ch r 3))
+           (if rb r 4 1 2 then [] else gen_block k (no_top_loop E) None (S (Z.to_nat (rn r 5 2))) (ch r 6))]
     else if c <? 11 then
-      if fFor (gFe E) then
+      if (fList (gFe E) && fFor (gFe E) && negb (gNoLoop E) && rb r 7 1 3)%bool then
+        let b := pick_elem E r 8 in
+        let E' := set_noif (set_loop (set_L E (gL E ++ [(ty_of_bty b, KConst)])) true) in
+        [SForIn b (gen_expr k E MAny (TList b) (ch r 1)) (gen_block k E' None (S (Z.to_nat (rn r 5 3))) (ch r 6))]
+      else if (fFor (gFe E) && negb (gNoLoop E))%bool then
         let lo := small_lit NMI (-2) 6 (ch r 1) in
         let hi := if rb r 2 3 4 then small_lit NMI 0 7 (ch r 3)
                   else EPrim (PMod NMI) [gen_expr k E MStable TMI (ch r 3); small_lit NMI 2 6 (ch r 4)] in
-        let E' := set_loop (set_L E (gL E ++ [(TMI, false)])) true in
+        let E' := set_noif (set_loop (set_L E (gL E ++ [(TMI, KConst)])) true) in
         [SFor lo hi (gen_block k E' None (S (Z.to_nat (rn r 5 3))) (ch r 6))]
-      else print1 k
+      else simple k
     else if c <? 12 then
-      match (if fWhile (gFe E) then gCnt E else []) with
+      match (if (fWhile (gFe E) && negb (gNoLoop E))%bool then gCnt E else []) with
       | [] => assign k
       | cn :: rest =>
-          let E' := set_loop (set_cnt E rest) true in
+          let E' := set_noif (set_loop (set_cnt E rest) true) in
           let body := gen_block k E' None (S (Z.to_nat (rn r 5 2))) (ch r 6) in
           let init := ELit (LNum NMI (rn r 1 5)) in
           if gTop E then
@@ -356,7 +476,7 @@ with gen_stmts (sz : nat) (E : genv) (vs : option ty) (r : rng) {struct sz} : li
           if gLoop E then
             let j := if rb r 1 1 2 then SBreak else SIterate in
             if fExit (gFe E) then [SExit (gen_expr k E MAny TBool (ch r 2)) j]
-            else [SIf (gen_expr k E MAny TBool (ch r 2)) [j] []]
+            else if gNoIf E then [] else [SIf (gen_expr k E MAny TBool (ch r 2)) [j] []]
           else if fExit (gFe E) then
             match assign k with
             | [s] => [SExit (gen_expr k E MAny TBool (ch r 2)) s]
@@ -366,13 +486,14 @@ with gen_stmts (sz : nat) (E : genv) (vs : option ty) (r : rng) {struct sz} : li
       end
     else if c <? 14 then
       match gRet E with
-      | Some t => [SIf (gen_expr k E MAny TBool (ch r 1)) [SReturn (gen_expr k E MAny t (ch r 2))] []]
-      | None => print1 k
+      | Some t => if gNoIf E then []
+                  else [SIf (gen_expr k E MAny TBool (ch r 1)) [SReturn (gen_expr k E MAny t (ch r 2))] []]
+      | None => simple k
       end
     else
       (* call for effect *)
-      match filter (fun g => negb (gs_pure g)) (if gPureF E then [] else gF E) with
-      | [] => (if gPureF E then assign k else print1 k)
+      match filter (fun g => (negb (gs_pure g) && thr_ok E g)%bool) (if gPureF E then [] else gF E) with
+      | [] => simple k
       | g0 :: gs' =>
           let g := pick r 1 (g0 :: gs') g0 in
           let n := List.length (gs_params g) in
@@ -397,7 +518,7 @@ Fixpoint sig_taken (fs : list fsig) (name : nat) (ps : list ty) : bool :=
 Definition fresh_name (fs : list fsig) : nat := S (fold_right (fun g a => Nat.max (gs_name g) a) 0%nat fs).
 
 (* Build one function definition.  G: globals visible (generator view), fs: earlier functions *)
-Definition gen_fun (sz : nat) (fe : feats) (G : list (ty * bool)) (fs : list fsig) (r : rng)
+Definition gen_fun (sz : nat) (fe : feats) (G : list (ty * vkind)) (fs : list fsig) (r : rng)
   : fundef * fsig :=
   let isrec := (fRec fe && rb r 1 1 3)%bool in
   let ps0 := gen_params fe (ch r 2) in
@@ -414,25 +535,26 @@ Definition gen_fun (sz : nat) (fe : feats) (G : list (ty * bool)) (fs : list fsi
                end in
   let name := match reuse with Some g => gs_name g | None => fresh_name fs end in
   let pure := match reuse with Some g => gs_pure g | None => rb r 6 1 2 end in
-  let me := mkSig name ps ret pure isrec in
+  let thr := (fExn fe && negb pure && rb r 13 1 3)%bool in
+  let me := mkSig name ps ret pure isrec thr in
   let np := List.length ps in
   let nloc := Z.to_nat (rn r 7 3) in
   let ncnt := if fWhile fe then Z.to_nat (rn r 8 2) else 0%nat in
   let ltys := map (fun i => gen_ty fe r (Z.of_nat i + 50)) (seq 0 nloc) in
-  let pframe := map (fun t => (t, false)) ps in
-  let E0 := mkGenv fe G fs pframe [] false (Some ret) false pure None in
+  let pframe := map (fun t => (t, KConst)) ps in
+  let E0 := mkGenv fe G fs pframe [] false (Some ret) false pure None false false false false false in
   (* initialisers of the locals: each sees the parameters and the earlier locals *)
   let locals :=
-      (fix go (i : nat) (ts : list ty) (fr : list (ty * bool)) : list (ty * expr) :=
+      (fix go (i : nat) (ts : list ty) (fr : list (ty * vkind)) : list (ty * expr) :=
          match ts with
          | [] => []
          | t :: rest => (t, gen_expr 1 (set_L E0 fr) MPure t (ch r (Z.of_nat i + 60)))
-                        :: go (S i) rest (fr ++ [(t, true)])
+                        :: go (S i) rest (fr ++ [(t, KVar)])
          end) 0%nat ltys pframe in
   let cnts := map (fun _ => (TMI, ELit (LNum NMI 0))) (seq 0 ncnt) in
-  let frame := pframe ++ map (fun t => (t, true)) ltys ++ map (fun _ => (TMI, false)) (seq 0 ncnt) in
+  let frame := pframe ++ map (fun t => (t, KVar)) ltys ++ map (fun _ => (TMI, KCnt)) (seq 0 ncnt) in
   let E := mkGenv fe G fs frame (seq (np + nloc) ncnt) false (Some ret) false pure
-                  (if isrec then Some me else None) in
+                  (if isrec then Some me else None) false false false thr false in
   let guard := if isrec
                then [SExitV (EPrim (PLe NMI) [ELoc 0; ELit (LNum NMI 0)]) (gen_expr 1 (set_L E0 pframe) MPure ret (ch r 9))]
                else [] in
@@ -442,37 +564,47 @@ Definition gen_fun (sz : nat) (fe : feats) (G : list (ty * bool)) (fs : list fsi
          (List.length G), me).
 
 (* ---------------- programs ---------------- *)
+(* a top-level form may not be an exit (it would leave the file's sequence) *)
+Definition no_top_exit (st : stmt) : stmt :=
+  match st with
+  | SExit c s' => SIf c [s'] []
+  | _ => st
+  end.
+
 (* state of the top-level generator: items so far (reversed), globals, functions *)
-Fixpoint gen_items (n : nat) (sz : nat) (fe : feats) (G : list (ty * bool)) (cnt : list nat)
+Fixpoint gen_items (n : nat) (sz : nat) (fe : feats) (G : list (ty * vkind)) (cnt : list nat)
          (fs : list fsig) (r : rng) {struct n} : prog :=
   match n with
   | O =>
       (* finally print every global, so that the whole final state is observed *)
       map (fun k => IStmt (SPrint [EGlob k])) (seq 0 (List.length G))
   | S n' =>
-      let E := mkGenv fe G fs [] cnt true None false false None in
+      let E := mkGenv fe G fs [] cnt true None false false None false false false false false in
       let c := rn r 0 10 in
       if c <? 3 then
         let t := gen_ty fe r 1 in
         let isvar := rb r 2 2 3 in
         let e := gen_expr sz E MAny t (ch r 3) in
         (if isvar then IVar t e else IConst t e)
-        :: gen_items n' sz fe (G ++ [(t, isvar)]) cnt fs (ch r 4)
+        :: gen_items n' sz fe (G ++ [(t, if isvar then KVar else KConst)]) cnt fs (ch r 4)
       else if (c <? 5) && fFun fe then
         let (fd, g) := gen_fun sz fe G fs (ch r 1) in
         IFun fd :: gen_items n' sz fe G cnt (fs ++ [g]) (ch r 4)
       else
-        map IStmt (gen_stmts (S sz) E None (ch r 1)) ++ gen_items n' sz fe G cnt fs (ch r 4)
+        map (fun st => IStmt (no_top_exit st)) (gen_stmts (S sz) E None (ch r 1)) ++ gen_items n' sz fe G cnt fs (ch r 4)
   end.
 
-Definition gen0 (r : rng) (size : nat) : prog :=
-  let fe := draw_feats r in
+Definition gen0 (fe : feats) (r : rng) (size : nat) : prog :=
   let sz := Nat.min 4 (1 + size / 8)%nat in
   (* two reserved global while-counters, declared first *)
   let pre := if fWhile fe then [IVar TMI (ELit (LNum NMI 0)); IVar TMI (ELit (LNum NMI 0))] else [] in
-  let G0 := if fWhile fe then [(TMI, false); (TMI, false)] else [] in
+  let G0 := if fWhile fe then [(TMI, KCnt); (TMI, KCnt)] else [] in
   let cnt := if fWhile fe then [0%nat; 1%nat] else [] in
   pre ++ gen_items (3 + size)%nat sz fe G0 cnt [] (ch r 1).
+
+(* rendering style of the literals of the program generated from [seed] *)
+Definition style_of_seed (seed : Z) : Print.style :=
+  let fe := draw_feats (rng_of_seed seed) in Print.mkStyle (fQual fe) (fMac fe).
 
 Definition gen_fuel : nat := 3000.
 
@@ -481,12 +613,12 @@ Definition accepted (p : prog) : bool :=
 
 Definition fallback_prog : prog := [IStmt (SPrint [ELit (LStr "fallback"%string)])].
 
-Fixpoint gen_try (k : nat) (r : rng) (size : nat) : option (nat * prog) :=
-  let p := gen0 r size in
+Fixpoint gen_try (fe : feats) (k : nat) (r : rng) (size : nat) : option (nat * prog) :=
+  let p := gen0 fe r size in
   if accepted p then Some (k, p)
   else match k with
        | O => None
-       | S k' => gen_try k' (ch r 99) size
+       | S k' => gen_try fe k' (ch r 99) size
        end.
 
 Definition gen_tries : nat := 5.
@@ -494,7 +626,7 @@ Definition gen_tries : nat := 5.
 (* (number of rejected candidates before the accepted one, program);
    S gen_tries means that the fallback was used                                           *)
 Definition gen_with_tries (seed : Z) (size : nat) : nat * prog :=
-  match gen_try gen_tries (rng_of_seed seed) size with
+  match gen_try (draw_feats (rng_of_seed seed)) gen_tries (rng_of_seed seed) size with
   | Some (k, p) => ((gen_tries - k)%nat, p)
   | None => (S gen_tries, fallback_prog)
   end.
